@@ -397,7 +397,8 @@ def games(shard, rabin=False, modes=MODES):
 
 def ownership_changes(aut, case):
     """Hand the first environment variable to the component, then the first
-    component variable to the environment, editing `aut.varlist` IN PLACE;
+    component variable to the environment, then exchange all variables of
+    the two players, editing `aut.varlist` IN PLACE;
     yields (moved variable, destination, case with the new ownership)."""
     hints = dict((n, h) for n, h in case['env'] + case['sys'])
     for src, dst in (('env', 'sys'), ('sys', 'env')):
@@ -410,6 +411,16 @@ def ownership_changes(aut, case):
         c2['env'] = [[n, hints[n]] for n in aut.varlist['env']]
         c2['sys'] = [[n, hints[n]] for n in aut.varlist['sys']]
         yield v, dst, c2
+    # finally the two players exchange ALL their variables (list lengths
+    # unchanged when both own equally many)
+    if aut.varlist['env'] and aut.varlist['sys']:
+        e, s_ = list(aut.varlist['env']), list(aut.varlist['sys'])
+        aut.varlist['env'][:] = s_
+        aut.varlist['sys'][:] = e
+        c2 = dict(case)
+        c2['env'] = [[n, hints[n]] for n in aut.varlist['env']]
+        c2['sys'] = [[n, hints[n]] for n in aut.varlist['sys']]
+        yield 'all', 'exchanged', c2
 
 
 def game_sequences(shard, rabin=False, length=4):
